@@ -209,6 +209,14 @@ example : diskAfterFault (writeCalls [[1, 2, 3, 4, 5], [6]]) 1 3 = [0, 0, 0, 5, 
 example : diskAfterFault (writeCalls [[1, 2], [6]]) 9 0 = streamOf [[1, 2], [6]] := by decide
 
 
+/-- `RecordStreamReader.read` in the current source is the frame reader the cut model (`Stream.decStep`) was written
+    from: one read of the 4-byte length prefix (short = end of file), ONE read of exactly `size` bytes for the body, the
+    body handed to the unpacker as it arrived - no chunking, no reuse of a buffer, nothing kept between frames. -/
+theorem C04_frame_read_is_the_modelled_one :
+    Gen.readerReadBody = ["d = self.fp.read(4)", "if len(d) != 4:", "  raise EOFError()",
+      "size = struct.unpack('>I', d)[0]", "d = self.fp.read(size)", "return self.packer.unpack(d)"] := by
+  decide +kernel
+
 /-- THE COMPARISON-IGNORE CONFIGURATION CONCERNS == AND hash() ONLY: whatever configuration is in force
     (FLOW_RECORD_IGNORE, `set_ignored_fields_for_comparison`, a `with ignore_fields_for_comparison(...)` block around a
     de-duplicating producer), the frames a writer emits hold complete records: the packer asks `Record._pack` to leave out nothing.
